@@ -307,7 +307,15 @@ def prop_contract(case, r):
                 lt = P.params.get('lin_tol', P.params.get('lintol')) if hasattr(P, 'params') else None
                 if lt and not P.params.get('direct_solver', False):
                     tol += 100 * float(lt) * max(1.0, float(np.abs(arr(rhs)).max()))
-            r.close(float(np.abs(res).max()), tol, 'solve-residual', lambda: f'{name}{ctor if len(str(ctor)) < 80 else ""} factor={factor!r} t={t!r} comp={comp}: |u - factor*f_impl(u) - rhs| = {np.abs(res).max():.3e}')
+            # where the residual sits (used to delimit the known findings F11 / F17 narrowly, from the residual itself)
+            rv = np.asarray(res, dtype=float).ravel() if not np.iscomplexobj(res) else np.abs(np.asarray(res)).ravel()
+            where = ''
+            if name == 'allencahn_front_semiimplicit' and rv.size >= 4:
+                where = f' interior-rows-ok={bool(np.abs(rv[1:-1]).max() <= tol)}'
+            if name == 'advectiondiffusion1d_implicit' and rv.size >= 4 and rv.size % 2 == 0:
+                nyq = (-1.0) ** np.arange(rv.size)
+                where = f' off-nyquist-ok={bool(np.abs(rv - nyq * (rv @ nyq) / rv.size).max() <= tol)}'
+            r.close(float(np.abs(res).max()), tol, 'solve-residual', lambda: f'{name}{ctor if len(str(ctor)) < 80 else ""} factor={factor!r} t={t!r} comp={comp}: |u - factor*f_impl(u) - rhs| = {np.abs(res).max():.3e}{where}')
             if factor != 0.0 and not own_ic:
                 r.nontrivial([name, case['variant'], round(np.log10(factor), 1), comp])
 
@@ -447,9 +455,11 @@ def exact_cases(draw):
 def known_match(fid, clause, case, failure):
     tag, msg = failure
     if fid == 'F11' and clause == 'contract' and tag == 'solve-residual':
-        return case['cls'] == 'allencahn_front_semiimplicit'
+        # only the two rows next to the boundary may be off (the solve uses homogeneous boundary data)
+        return case['cls'] == 'allencahn_front_semiimplicit' and 'interior-rows-ok=True' in msg
     if fid == 'F17' and clause == 'contract' and tag == 'solve-residual':
-        return case['cls'] == 'advectiondiffusion1d_implicit'
+        # only the Nyquist mode may be off
+        return case['cls'] == 'advectiondiffusion1d_implicit' and 'off-nyquist-ok=True' in msg
     return False
 
 
